@@ -34,18 +34,37 @@ def FeId.printable : FeId → Prop
   | .kernInstance l => l.printable
   | _ => True
 
-/-- two different kerning instances whose locations have the same axes and agree on every
-    coordinate after rounding to two decimals -/
-def KernClash (a b : FeId) : Prop :=
-  ∃ l1 l2, a = .kernInstance l1 ∧ b = .kernInstance l2 ∧ l1 ≠ l2 ∧ l1.key = l2.key
+theorem stf_kern_prefix (t s : List Nat) :
+    stringToFilename (107 :: 101 :: 114 :: 110 :: 95 :: t) s
+      = 107 :: 101 :: 114 :: 110 :: 95 ::
+        (t.flatMap (escChar false) ++ caseSuffix (107 :: 101 :: 114 :: 110 :: 95 :: t) ++ s) := by
+  simp [stringToFilename, escBody, escChar, isReservedChar]
 
-theorem fe_target_inj_partial (a b : FeId) (pa : a.printable) (pb : b.printable) (hc : ¬ KernClash a b)
-    (h : feTarget a = feTarget b) : a = b := by
+theorem kernFileName_head (pr : Rat → List Nat) (l : Loc) :
+    ∃ t, kernFileName pr l = 107 :: 101 :: 114 :: 110 :: 95 :: t := by
+  have h : ∃ t, kernName pr l = 107 :: 101 :: 114 :: 110 :: 95 :: t :=
+    ⟨joinUnderscore (l.map (kernEntry pr)), by simp [kernName, lit]⟩
+  obtain ⟨t, ht⟩ := h
+  exact ⟨_, by rw [kernFileName, ht, stf_kern_prefix]⟩
+
+theorem kern_locations_as_stf :
+    lit "kern_locations.yml" = stringToFilename (lit "kern_locations") (lit ".yml") := by decide
+
+theorem kernFileName_ne_locations (pr : Rat → List Nat) (l : Loc) (p : l.printable) :
+    kernFileName pr l ≠ lit "kern_locations.yml" := by
+  intro h
+  rw [kern_locations_as_stf, kernFileName] at h
+  exact kernName_ne_locations pr l p (stf_inj _ _ _ h)
+
+/-- distinct FE ids, distinct files — at full strength for the current code, given what is assumed
+    of the float printer -/
+theorem fe_target_inj (pr : Rat → List Nat) (hi : PrintInjective pr) (hu : PrintNoUnderscore pr)
+    (a b : FeId) (pa : a.printable) (pb : b.printable)
+    (h : feTarget pr a = feTarget pr b) : a = b := by
   cases a <;> cases b <;>
     first
     | rfl
     | (exfalso; revert h; simp [feTarget, lit]; done)
-    | (exfalso; revert h; simp [feTarget, lit, kernFileName]; done)
     | skip
   case glyph.glyph n1 n2 =>
     simp only [feTarget] at h
@@ -54,13 +73,19 @@ theorem fe_target_inj_partial (a b : FeId) (pa : a.printable) (pb : b.printable)
     simp only [feTarget] at h
     rw [stf_inj n1 n2 _ (List.append_cancel_left h)]
   case kerningLocations.kernInstance l =>
-    exact absurd h.symm (kernFileName_ne_locations l pb)
+    exact absurd h.symm (kernFileName_ne_locations pr l pb)
   case kernInstance.kerningLocations l =>
-    exact absurd h (kernFileName_ne_locations l pa)
+    exact absurd h (kernFileName_ne_locations pr l pa)
   case kernInstance.kernInstance l1 l2 =>
-    by_cases hl : l1 = l2
-    · rw [hl]
-    · exact absurd ⟨l1, l2, rfl, rfl, hl, kernFileName_key l1 l2 pa pb h⟩ hc
+    simp only [feTarget, kernFileName] at h
+    rw [kernName_inj pr hi hu l1 l2 pa pb (stf_inj _ _ _ h)]
+  all_goals
+    exfalso
+    simp only [feTarget] at h
+    first
+    | (rename_i l; obtain ⟨t, ht⟩ := kernFileName_head pr l; rw [ht] at h; revert h; simp [lit]; done)
+    | (rename_i l _; obtain ⟨t, ht⟩ := kernFileName_head pr l; rw [ht] at h; revert h; simp [lit]; done)
+    | (rename_i _ l; obtain ⟨t, ht⟩ := kernFileName_head pr l; rw [ht] at h; revert h; simp [lit]; done)
 
 /-! ### BE ids -/
 
@@ -140,11 +165,11 @@ theorem be_target_inj (a b : BeId) (h : beTarget a = beTarget b) : a = b := by
 theorem last4_append (p s : List Nat) (hs : 4 ≤ s.length) : (p ++ s).reverse.take 4 = s.reverse.take 4 := by
   rw [List.reverse_append, List.take_append_of_le_length (by simp [hs])]
 
-theorem fe_ends_yml (a : FeId) : ∃ p, feTarget a = p ++ lit ".yml" := by
+theorem fe_ends_yml (pr : Rat → List Nat) (a : FeId) : ∃ p, feTarget pr a = p ++ lit ".yml" := by
   cases a
   case glyph n => exact ⟨lit "glyph_ir/" ++ (escBody n ++ caseSuffix n), by simp [feTarget, stringToFilename]⟩
   case anchor n => exact ⟨lit "anchor_ir/" ++ (escBody n ++ caseSuffix n), by simp [feTarget, stringToFilename]⟩
-  case kernInstance l => exact ⟨lit "kern_" ++ joinUnderscore (l.map kernEntry), by simp [kernFileName, feTarget]⟩
+  case kernInstance l => exact ⟨escBody (kernName pr l) ++ caseSuffix (kernName pr l), by simp [kernFileName, feTarget, stringToFilename]⟩
   case staticMetadata => exact ⟨lit "static_metadata", by decide⟩
   case globalMetrics => exact ⟨lit "global_metrics", by decide⟩
   case preliminaryGlyphOrder => exact ⟨lit "glyph_order.preliminary", by decide⟩
@@ -167,9 +192,9 @@ theorem be_not_ends_yml (b : BeId) : (beTarget b).reverse.take 4 ≠ (lit ".yml"
       rw [last4_append _ _ (by decide)]
       decide
 
-theorem fe_be_disjoint (a : FeId) (b : BeId) : feTarget a ≠ beTarget b := by
+theorem fe_be_disjoint (pr : Rat → List Nat) (a : FeId) (b : BeId) : feTarget pr a ≠ beTarget b := by
   intro h
-  obtain ⟨p, hp⟩ := fe_ends_yml a
+  obtain ⟨p, hp⟩ := fe_ends_yml pr a
   apply be_not_ends_yml b
   rw [← h, hp, last4_append _ _ (by decide)]
 
@@ -251,17 +276,17 @@ theorem fmt2_no_slash (q : Rat) : 0x2F ∉ fmt2 q := by
 
 def Tag.noSlash (t : Tag) : Prop := t.b0 ≠ 0x2F ∧ t.b1 ≠ 0x2F ∧ t.b2 ≠ 0x2F ∧ t.b3 ≠ 0x2F
 
-theorem kernFileName_no_slash (l : Loc) (p : l.printable) (hn : ∀ e ∈ l, e.1.noSlash) :
-    0x2F ∉ kernFileName l := by
+theorem kernFileNameOld_no_slash (l : Loc) (p : l.printable) (hn : ∀ e ∈ l, e.1.noSlash) :
+    0x2F ∉ kernFileNameOld l := by
   intro h
-  simp only [kernFileName, List.mem_append] at h
+  simp only [kernFileNameOld, List.mem_append] at h
   rcases h with (h | h) | h
   · revert h; decide
   · rcases mem_joinUnderscore _ _ h with h | ⟨y, hy, hxy⟩
     · omega
     · rw [List.mem_map] at hy
       obtain ⟨e, he, rfl⟩ := hy
-      simp only [kernEntry, List.mem_append, List.mem_cons] at hxy
+      simp only [kernEntryOld, List.mem_append, List.mem_cons] at hxy
       rcases hxy with hxy | hxy | hxy
       · rw [render_printable _ (p e he)] at hxy
         obtain ⟨h0, h1, h2, h3⟩ := hn e he
@@ -270,5 +295,8 @@ theorem kernFileName_no_slash (l : Loc) (p : l.printable) (hn : ∀ e ∈ l, e.1
       · omega
       · exact fmt2_no_slash _ hxy
   · revert h; decide
+
+theorem kernFileName_no_slash (pr : Rat → List Nat) (l : Loc) : 0x2F ∉ kernFileName pr l :=
+  stf_no_slash _ _ (by decide)
 
 end Fontc.Paths
